@@ -75,7 +75,8 @@ CLAIMED = {
         text="Lean 4 theorems: x·M, M·x and the triangular solve are linear in the data for every size; dr scaling of the "
              "matrix forms; NNLS solutions are positively homogeneous (over the reals); the Hansen–Law recursion, the direct quadrature "
              "(python backend) and the Bordas peeling loop as coded are linear in the row and scale with dr, for every constant table; the "
-             "Bordas loop is the exact solve of its arcsine shell-weight system. Tie: Lean models of those three run against the code row "
+             "Bordas loop is the exact solve of its arcsine shell-weight system; the uniformity test that decides how `direct` integrates an "
+             "explicit radial grid gives the same verdict in every unit of length (C02Grid). Tie: Lean models of those three run against the code row "
              "by row (Hansen–Law constants regenerated from the source);  for every method x direction x "
              "option set the implementation is compared with its own extracted fixed operator (T(X) = X@M), and the Lean "
              "matrices with the implementation's arrays; linearity, bit-exact row independence, dr scaling, integer dtypes, "
@@ -228,7 +229,8 @@ CLAIMED = {
              "degree, piece, shift, stretch and sample inside r_max (reduction formula of ∫ r^k dy by the fundamental theorem of calculus); every "
              "SPolynomial term r^m cos^n θ on [r_min, r_max) — the coded antiderivatives F(k, lim) for all integer k = n − m, closed forms, "
              "upward and downward recursion — is projected exactly (two-sided reduction formula of ∫(r/ρ)^k dz, k ∈ ℤ), including the value "
-             "the code adds on the axis (r = 0). Tie: Polynomial.func vs the Lean "
+             "the code adds on the axis (r = 0); the half-open domains of adjoining pieces tile and the Abel transform of the whole is the "
+             "sum over the pieces (C10Adjoin). Tie: Polynomial.func vs the Lean "
              "transform; Polynomial.abel and single-term SPolynomial.abel vs the Lean models; Angular products/cossin vs the model. Oracle: func and abel of random pieces vs the polynomial and vs "
              "scipy line-of-sight quadrature (relative to term size), piecewise sums, scalar ops, copies, SPolynomial on 2-D grids, "
              "Angular algebra, Legendre series, B-spline conversion, ApproxGaussian tolerances.",
